@@ -160,6 +160,22 @@ def install(ctx):
         w = read_loc(args[0].loc)
         return opt_sym(w.alive, w.arc)
 
+    @M.reg('Arc::ptr_eq', 'Rc::ptr_eq', 'Weak::ptr_eq')
+    def arc_ptr_eq(ip, pc, args, dt):
+        def same(a, b):
+            if isinstance(a, ArcIte):
+                return z3.If(a.c, same(a.a, b), same(a.b, b))
+            if isinstance(b, ArcIte):
+                return z3.If(b.c, same(a, b.a), same(a, b.b))
+            if isinstance(a, ArcCell) and isinstance(b, ArcCell):
+                return z3.BoolVal(a.cell is b.cell)
+            if isinstance(a, ArcTok) and isinstance(b, ArcTok):
+                return a.tok == b.tok
+            if isinstance(a, (ArcCell, ArcTok)) and isinstance(b, (ArcCell, ArcTok)):
+                return z3.BoolVal(False)        # a heap cell created on this path is never one of the pre-existing tokens
+            raise Unsupported('ptr_eq on %r / %r' % (a, b))
+        return bool_s(z3.simplify(same(read_loc(args[0].loc), read_loc(args[1].loc))))
+
     @M.reg('Weak::strong_count', 'Arc::strong_count')
     def weak_strong_count(ip, pc, args, dt):
         w = read_loc(args[0].loc)
